@@ -11,9 +11,9 @@ def octObj (o : Oracle) (k : Key) (b : Bytes) : Obj :=
 def IsOctKey (k : Key) (b : Bytes) : Prop := k.priv = .oct b ∧ k.pub = .none
 
 theorem marshal_oct (o : Oracle) (k : Key) (b : Bytes) (hk : IsOctKey k b) :
-    (marshal k).run o = .ok (octObj o k b) := by
+    (marshalFrom k).run o = .ok (octObj o k b) := by
   obtain ⟨hp, hq⟩ := hk
-  unfold marshal
+  unfold marshalFrom
   simp [PO.run_bind, run_encodeCommon, hp, hq, encodeMaterial, encodeOct, octObj]
 
 theorem octObj_registered (o : Oracle) (k : Key) (b : Bytes) (name : String) :
